@@ -2,6 +2,7 @@ import XlModel.Settings
 import XlModel.Protection
 import XlModel.CondFmt
 import XlModel.DvDelete
+import XlModel.DvRecord
 import XlModel.Drv.Util
 namespace XlModel.Drv.C18
 open XlModel XlModel.Settings XlModel.Drv
@@ -98,6 +99,55 @@ def runDvDel (rules : List (List Char)) (del : List Char) : String :=
     | .ok rs =>
       let out := DvDelete.deleteRules rs d
       if out.isEmpty then "ok -" else "ok " ++ ";".intercalate (out.map showCells)
+
+/-! `dvb`: build a DataValidation with the public builder methods, add it, read it back -/
+
+def showOptS : Option (List Char) → String
+  | none => "~"
+  | some v => "s=" ++ hexS v
+
+def showB (b : Bool) : String := if b then "b=1" else "b=0"
+
+def showDV (d : DvRecord.DV) : String :=
+  "AllowBlank:" ++ showB d.allowBlank ++ " Error:" ++ showOptS d.error ++ " ErrorStyle:" ++ showOptS d.errorStyle ++
+  " ErrorTitle:" ++ showOptS d.errorTitle ++ " Formula1:s=" ++ hexS d.formula1 ++ " Formula2:s=" ++ hexS d.formula2 ++
+  " Operator:s=" ++ hexS d.operator ++ " Prompt:" ++ showOptS d.prompt ++ " PromptTitle:" ++ showOptS d.promptTitle ++
+  " ShowDropDown:" ++ showB d.showDropDown ++ " ShowErrorMessage:" ++ showB d.showErrorMessage ++
+  " ShowInputMessage:" ++ showB d.showInputMessage ++ " Sqref:s=" ++ hexS d.sqref ++ " Type:s=" ++ hexS d.type
+
+def runDvb (w : List String) : String :=
+  match w with
+  | [ab, dd, form, t, o, a, b, err, et, em, inp, it, im, sq] =>
+    match t.toNat?, o.toNat?, unhexS et, unhexS em, unhexS it, unhexS im, unhexS sq with
+    | some t, some o, some et, some em, some it, some im, some sq =>
+      let d0 : DvRecord.DV := { DvRecord.newDV (ab = "1") with sqref := sq, showDropDown := (dd = "1") }
+      let d1 : Option DvRecord.DV :=
+        if form = "rs" then
+          match unhexS a, unhexS b with
+          | some a, some b => some (DvRecord.setRange d0 (.str a) (.str b) t o)
+          | _, _ => none
+        else if form = "ri" then
+          match a.toInt?, b.toInt? with
+          | some a, some b => some (DvRecord.setRange d0 (.int a) (.int b) t o)
+          | _, _ => none
+        else if form = "list" then
+          match (a.splitOn ",").mapM unhexS with
+          | some keys => some (match DvRecord.setDropListDV d0 keys with
+              | some d => d
+              | none => d0)
+          | none => none
+        else if form = "sqref" then (unhexS a).map (DvRecord.setSqrefDropList d0)
+        else none
+      match d1 with
+      | none => "bad-op"
+      | some d1 =>
+        let d2 := match err.toNat? with
+          | some st => DvRecord.setError d1 st et em
+          | none => d1
+        let d3 := if inp = "1" then DvRecord.setInput d2 it im else d2
+        "ok " ++ showDV (DvRecord.getDV (DvRecord.addDV d3))
+    | _, _, _, _, _, _, _ => "bad-op"
+  | _ => "bad-op"
 
 /-- split a word list at the `|` separators -/
 def splitBar (ws : List String) : List (List String) :=
@@ -309,6 +359,7 @@ def step (st : St) (w : List String) : St × String :=
     match a.toNat?, b.toNat? with
     | some a, some b => (st, "ok " ++ toString (getFirstPage (setFirstPage (setFirstPage none a) b)))
     | _, _ => (st, "bad-op")
+  | "dvb" :: rest => (st, runDvb rest)
   | ["dvdel", rs, d] =>
     match (rs.splitOn ",").mapM unhexS, unhexS d with
     | some rules, some del => (st, runDvDel rules del)
